@@ -23,7 +23,11 @@ PASS_CALLS = ('std::ops::Try::branch', 'std::option::Option::<T>::ok_or', 'std::
 LEN_CALLS = ('core::slice::<impl [T]>::len', 'std::vec::Vec::<T, A>::len')
 MUTATORS_LEN_PRESERVING = ('core::slice::<impl [T]>::copy_from_slice', 'std::slice::<impl [T]>::sort', 'core::slice::<impl [T]>::sort',
                            'elliptic_curve::hash2curve::Expander::fill_bytes', 'rand::RngCore::fill_bytes', 'core::slice::<impl [T]>::fill',
-                           'std::slice::<impl [T]>::sort_unstable', 'core::slice::<impl [T]>::reverse')
+                           'std::slice::<impl [T]>::sort_unstable', 'core::slice::<impl [T]>::reverse', 'core::slice::<impl [T]>::iter_mut',
+                           'core::slice::<impl [T]>::swap', 'core::slice::<impl [T]>::get_mut', 'core::slice::<impl [T]>::first_mut',
+                           'core::slice::<impl [T]>::last_mut', 'core::slice::<impl [T]>::clone_from_slice', 'core::slice::<impl [T]>::sort_by',
+                           'core::slice::<impl [T]>::sort_by_key', 'core::slice::<impl [T]>::sort_unstable_by', 'core::slice::<impl [T]>::rotate_left',
+                           'core::slice::<impl [T]>::rotate_right')
 PANIC_FNS = ('core::panicking::panic', 'core::panicking::panic_fmt', 'core::panicking::panic_display', 'core::panicking::assert_failed',
              'core::panicking::panic_explicit', 'core::panicking::unreachable_display', 'std::rt::begin_panic', 'core::panicking::panic_nounwind',
              'std::rt::panic_fmt')
@@ -182,7 +186,10 @@ class ZoneFn:
                 if a['k'] in ('copy', 'move'):
                     ty = body.local_ty(a['pl']['l'])
                     if ty.startswith('&mut ') and cal not in MUTATORS_LEN_PRESERVING and cal not in DEREF_CALLS and cal not in INDEX_CALLS \
-                            and cal != 'std::iter::Iterator::next':
+                            and cal != 'std::iter::Iterator::next' \
+                            and not ty[5:].startswith(('std::slice::Iter<', 'std::iter::', 'std::ops::Range', 'std::slice::Chunks', 'std::slice::Windows',
+                                                       'std::str::', 'std::option::IntoIter', 'std::fmt::')):
+                        # (advancing a shared iterator over a container does not change the container)
                         r, p = fd.resolve_place(a['pl'])
                         roots.add(r)
                     # by-mut closure captures
@@ -209,9 +216,120 @@ class ZoneFn:
             return max(0, min(v, self.sym_bound.get(sym, UMAX)))
         if sym in self.sym_bound:
             return self.sym_bound[sym]
+        if self.body.kind == 'Closure' and (sym.startswith('cap') or (sym[0] == 'p' and sym[1:].isdigit())) and sym not in self._ub_guard:
+            self._ub_guard.add(sym)
+            v = self._closure_sym_ub(sym)
+            self._ub_guard.discard(sym)
+            if v is not None:
+                self.sym_bound[sym] = v
+                return v
         if sym.startswith('len'):
             return IMAX
         return UMAX
+
+    # ------------------------------------------------------------------ closures: context of the creating body
+    def closure_ctx(self):
+        """(creator ZoneFn, creation block, capture operands, consumer call block, consumer call) of this closure body"""
+        if getattr(self, '_cctx', False) is not False:
+            return self._cctx
+        self._cctx = None
+        cr = self.za.closure_creator(self.body.path)
+        if cr is None:
+            return None
+        cpath, cb, rv = cr
+        pzf = self.za.zf(cpath)
+        consumer = None
+        for bi, t in pzf.body.calls():
+            for a in t['args']:
+                if a['k'] in ('copy', 'move') and not a['pl'].get('p'):
+                    ci = pzf.fd._closure_info(a['pl']['l'])
+                    if ci and ci[0] == self.body.path:
+                        consumer = (bi, t)
+        self._cctx = (pzf, cb, rv['ops'], consumer)
+        return self._cctx
+
+    def _closure_sym_ub(self, sym):
+        ctx = self.closure_ctx()
+        if ctx is None:
+            return None
+        pzf, cb, caps, consumer = ctx
+        if sym.startswith('cap'):
+            k = sym[3:]
+            if not k.isdigit() or int(k) >= len(caps):
+                return None
+            t = pzf.term_op(caps[int(k)])
+            return pzf.upper_bound(t, cb) if t is not None else None
+        # element parameter of a closure handed to an iterator adaptor over a container
+        if sym == 'p2' and consumer is not None:
+            bi, t = consumer
+            if (t.get('callee') or '').startswith('std::iter::Iterator::') and t['args']:
+                es = pzf.elem_sym_of_iter(t['args'][0])
+                if es is not None:
+                    return pzf.upper_bound((es, 0), bi)
+        return None
+
+    def iter_container(self, op, depth=0):
+        """descriptor of the container an iterator operand runs over (through iter / into_iter / copied / cloned / by_ref and borrows)"""
+        if op['k'] not in ('copy', 'move') or depth > 10:
+            return None
+        pl = op['pl']
+        if any(p['k'] != 'deref' for p in pl.get('p', [])):
+            return None
+        l = pl['l']
+        ty = self.body.local_ty(l).replace('&mut ', '').lstrip('&').strip()
+        if ty.startswith(('[', 'std::vec::Vec<')):
+            return self.desc_place(pl)
+        d = self.single_def(l)
+        if d is None:
+            return None
+        kind, bi, x = d
+        if kind == 'assign' and not x['dst'].get('p'):
+            rv = x['rv']
+            if rv['k'] == 'use' and rv['op']['k'] in ('copy', 'move'):
+                return self.iter_container(rv['op'], depth + 1)
+            if rv['k'] in ('ref', 'rawptr'):
+                return self.iter_container({'k': 'copy', 'pl': rv['pl']}, depth + 1)
+            return None
+        if kind == 'call' and x['args']:
+            cal = x.get('callee') or ''
+            if cal in ('core::slice::<impl [T]>::iter', 'core::slice::<impl [T]>::iter_mut', 'std::iter::IntoIterator::into_iter', 'std::iter::Iterator::copied',
+                       'std::iter::Iterator::cloned', 'std::iter::Iterator::by_ref', 'std::ops::Deref::deref', 'std::vec::Vec::<T, A>::as_slice'):
+                return self.iter_container(x['args'][0], depth + 1)
+        return None
+
+    def elem_sym_of_desc(self, d):
+        if d is None:
+            return None
+        t = self.len_of_desc(d)
+        if t is not None and t[0] is not None and t[0].startswith('len:') and t[1] == 0:
+            return 'elem:' + t[0][4:]
+        return None
+
+    def elem_sym_of_iter(self, op):
+        return self.elem_sym_of_desc(self.iter_container(op))
+
+    def closure_predicate(self, cpath, caps, elem_sym):
+        """the closure `|e| e OP bound` as (op, a, b, neg) in THIS body's terms, with e replaced by elem_sym"""
+        czf = self.za.zf(cpath)
+        r = czf._trace_bool({'l': 0}, 0)
+        if r is None or r[0] == 'FACTS':
+            return None
+        op, a, b, neg = r
+
+        def tr(t):
+            if t is None:
+                return None
+            if t[0] is None:
+                return t
+            if t[0] == 'p2':
+                return (elem_sym, t[1])
+            if t[0].startswith('cap') and t[0][3:].isdigit() and int(t[0][3:]) < len(caps):
+                return tadd(self.term_op(caps[int(t[0][3:])]), t[1])
+            return None
+        a2, b2 = tr(a), tr(b)
+        if a2 is None or b2 is None:
+            return None
+        return (op, a2, b2, neg)
 
     def unstable(self, t):
         return t is not None and t[0] is not None and t[0].startswith('m')
@@ -300,8 +418,8 @@ class ZoneFn:
         body, fd = self.body, self.fd
         ty = body.local_ty(l)
         if fd.is_param(l):
-            if ty in ('usize', 'u64', 'u32', 'u16', 'u8'):
-                res = ('p%d' % l, 0)
+            if ty.lstrip('&').strip() in ('usize', 'u64', 'u32', 'u16', 'u8'):
+                res = ('p%d' % l, 0)       # an integer, or a shared reference to one (same value)
         else:
             d = self.single_def(l)
             if d is None and ty in ('usize', 'u64', 'u32', 'u16', 'u8'):
@@ -633,6 +751,8 @@ class ZoneFn:
                 return (None, int(n)) if n.isdigit() else ('N:' + n, 0)
             if l in self.mut_roots:
                 return self.za.vec_fixed_len(self, l)
+            if (t.get('callee') or '').endswith('vec::from_elem') and len(t['args']) == 2:
+                return self.term_op(t['args'][1])      # vec![x; n] that is never grown or shrunk
             r = self.za.call_retlen(self, t, ())
             if r is None and l not in self.mut_roots:
                 ty = self.body.local_ty(l)
@@ -670,6 +790,15 @@ class ZoneFn:
                 if tgt0:
                     self.edge_facts.setdefault((bi, tgt0[0]), []).extend(post)
                 continue
+            nf = self._none_facts_of_find(t)
+            if nf:
+                tgt0 = [b for v, b in t['targets'] if v == '0']
+                vals = [v for v, b in t['targets']]
+                none_edge = tgt0[0] if tgt0 else (t['otherwise'] if vals == ['1'] else None)
+                some_edges = [b for v, b in t['targets'] if v != '0'] + ([t['otherwise']] if tgt0 else [])
+                if none_edge is not None and none_edge not in some_edges:
+                    self.edge_facts.setdefault((bi, none_edge), []).extend(nf)
+                continue
             zero_t = [b for v, b in t['targets'] if v == '0']
             if len(t['targets']) != 1 or not zero_t or zero_t[0] == t['otherwise']:
                 continue
@@ -677,10 +806,13 @@ class ZoneFn:
             cmpv = self._trace_bool(t['discr']['pl'], 0)
             if cmpv is None:
                 continue
-            op, a, b, neg = cmpv
-            tf, ff = self._cmp_facts(op, a, b)
-            if neg:
-                tf, ff = ff, tf
+            if cmpv[0] == 'FACTS':
+                tf, ff = cmpv[1], cmpv[2]
+            else:
+                op, a, b, neg = cmpv
+                tf, ff = self._cmp_facts(op, a, b)
+                if neg:
+                    tf, ff = ff, tf
             self.edge_facts[(bi, t_edge)] = tf
             self.edge_facts[(bi, f_edge)] = ff
 
@@ -718,6 +850,17 @@ class ZoneFn:
                 if ln is not None and parse_array_len(self.body.local_ty(call['args'][0]['pl']['l'])) is None:
                     return [(ln, want), (want, ln)]
             return None
+        cargs = None
+        if (call.get('callee') or '') in ('std::ops::Fn::call', 'std::ops::FnMut::call_mut', 'std::ops::FnOnce::call_once') and len(call['args']) == 2:
+            tgt = None
+            # a local closure used as a checking helper: `check(list, bound)?`
+            a0c, a1c = call['args']
+            if a0c['k'] in ('copy', 'move') and not a0c['pl'].get('p') and a1c['k'] in ('copy', 'move') and not a1c['pl'].get('p'):
+                ci = self.fd._closure_info(a0c['pl']['l'])
+                dt = self.single_def(a1c['pl']['l'])
+                if ci is not None and dt is not None and dt[0] == 'assign' and dt[2]['rv']['k'] == 'agg' and dt[2]['rv'].get('ak') == 'tuple':
+                    tgt = ci[0]
+                    cargs = [a0c] + list(dt[2]['rv']['ops'])
         if tgt is None or tgt == self.body.path:
             return None
         summ = self.za.summary(tgt)
@@ -725,10 +868,35 @@ class ZoneFn:
             return None
         out = []
         for (t1, t2) in summ.get('post', []):
-            a, b = self.za.subst(self, call, t1), self.za.subst(self, call, t2)
+            a, b = self.za.subst(self, call, t1, tgt=tgt, args=cargs), self.za.subst(self, call, t2, tgt=tgt, args=cargs)
             if a is not None and b is not None:
                 out.append((a, b))
         return out
+
+    def _none_facts_of_find(self, t):
+        """switch on discriminant(iter.find(p)) / iter.position(p): on the None edge no element satisfies p"""
+        pl = t['discr']['pl']
+        if pl.get('p'):
+            return None
+        d = self.single_def(pl['l'])
+        if not d or d[0] != 'assign' or d[2]['rv']['k'] != 'discr' or d[2]['rv']['pl'].get('p'):
+            return None
+        d2 = self.single_def(d[2]['rv']['pl']['l'])
+        if not d2 or d2[0] != 'call' or (d2[2].get('callee') or '') not in ('std::iter::Iterator::find', 'std::iter::Iterator::position') or len(d2[2]['args']) != 2:
+            return None
+        x = d2[2]
+        if x['args'][1]['k'] not in ('copy', 'move') or x['args'][1]['pl'].get('p'):
+            return None
+        es = self.elem_sym_of_iter(x['args'][0])
+        ci = self.fd._closure_info(x['args'][1]['pl']['l'])
+        if es is None or ci is None:
+            return None
+        pr = self.closure_predicate(ci[0], ci[1], es)
+        if pr is None:
+            return None
+        op, a, b, neg = pr
+        tf, ff = self._cmp_facts(op, a, b)
+        return tf if neg else ff
 
     def _trace_bool(self, pl, depth):
         if depth > 8 or pl.get('p'):
@@ -746,6 +914,8 @@ class ZoneFn:
                 return None
             if rv['k'] == 'unop' and rv['op'] == 'Not' and rv['a']['k'] in ('copy', 'move'):
                 r = self._trace_bool(rv['a']['pl'], depth + 1)
+                if r and r[0] == 'FACTS':
+                    return ('FACTS', r[2], r[1], False)
                 if r:
                     return (r[0], r[1], r[2], not r[3])
             if rv['k'] == 'use' and rv['op']['k'] in ('copy', 'move'):
@@ -756,6 +926,21 @@ class ZoneFn:
                 ln = self.len_of_place(x['args'][0]['pl'])
                 if ln is not None:
                     return ('Eq', ln, (None, 0), False)
+            if cal in ('std::iter::Iterator::any', 'std::iter::Iterator::all') and len(x['args']) == 2 and x['args'][1]['k'] in ('copy', 'move') \
+                    and not x['args'][1]['pl'].get('p'):
+                # quantified predicate over the elements of a container: all(p) true => p for every element; any(p) false => !p for every element
+                es = self.elem_sym_of_iter(x['args'][0])
+                ci = self.fd._closure_info(x['args'][1]['pl']['l'])
+                if es is not None and ci is not None:
+                    pr = self.closure_predicate(ci[0], ci[1], es)
+                    if pr is not None:
+                        op, a, b, neg = pr
+                        tf, ff = self._cmp_facts(op, a, b)
+                        if neg:
+                            tf, ff = ff, tf
+                        if cal.endswith('::all'):
+                            return ('FACTS', tf, [], False)
+                        return ('FACTS', [], ff, False)
         return None
 
     def _cmp_facts(self, op, a, b):
